@@ -740,6 +740,8 @@ func sweepAliased[T comparable](d *dom[T], maxBase int) explore.Stats {
 	}, func(c *explore.Chooser) bool { return !rep.TooMany() })
 }
 
+func ints0wide(i int) int { return 3*i - 7 }
+
 func main() {
 	maxLen, maxLong, maxChunks := 5, 20, 7
 	if len(os.Args) > 1 && os.Args[1] == "thorough" {
@@ -766,7 +768,16 @@ func main() {
 			return 1
 		}}},
 	}
+	// extreme values: differences and sums that overflow 64 bits (a comparator written as a - b, a key computed
+	// by arithmetic), the smallest and the largest int
+	ext := &dom[int]{name: "[]int (extreme values)", elems: []int{-9223372036854775808, -5000000000000000000, -1, 3, 5000000000000000000, 9223372036854775807}, show: strconv.Itoa, wide: ints0wide,
+		fs:   []named[func(int) int]{{"id", func(x int) int { return x }}},
+		ps:   []named[func(int) bool]{{"negative", func(x int) bool { return x < 0 }}},
+		keyI: []named[func(int) int]{{"id", func(x int) int { return x }}, {"neg", func(x int) int { return -x }}, {"halve", func(x int) int { return x / 2 }}},
+	}
 	var st explore.Stats
+	st.Add(sweepUnary(ext, 4))
+	st.Add(sweepSort(ext, 4))
 	st.Add(sweepUnary(ints, maxLen))
 	st.Add(sweepUnary(strs, maxLen))
 	st.Add(sweepSort(ints, maxLen))
